@@ -126,7 +126,7 @@ pub fn txid() -> impl Strategy<Value = Txid> {
 
 /// input; opaque scripts are generated exactly when the outpoint is the null outpoint
 pub fn gin(big: bool, depth: u32) -> BoxedStrategy<GIn> {
-    (txid(), prop_oneof![2 => u32_edge(), 1 => Just(0xffff_ffffu32), 1 => 0u32..4], gs::elements(big, false, depth, false), prop::collection::vec(any::<u8>(), 0..60), u32_edge())
+    (txid(), prop_oneof![2 => u32_edge(), 1 => Just(0xffff_ffffu32), 1 => 0u32..4], gs::elements(big, false, depth, true), prop::collection::vec(any::<u8>(), 0..60), u32_edge())
         .prop_map(|(txid, vout, els, opaque, sequence)| {
             let null = txid.wire() == [0u8; 32] && vout == 0xffff_ffff;
             GIn { txid, vout, script: if null { GScript::Opaque(Bytes::Lit(opaque)) } else { GScript::Els(els) }, sequence }
@@ -141,7 +141,7 @@ pub fn coinbase_in() -> BoxedStrategy<GIn> {
 }
 
 pub fn gout(big: bool, depth: u32) -> BoxedStrategy<GOut> {
-    (u64_edge(), gs::elements(big, false, depth, false)).prop_map(|(value, script)| GOut { value, script }).boxed()
+    (u64_edge(), gs::elements(big, false, depth, true)).prop_map(|(value, script)| GOut { value, script }).boxed()
 }
 
 /// small/medium transactions; `counts_big` adds padding classes that cross 252/253 (and 65535/65536 when `huge`)
